@@ -29,7 +29,8 @@ class Prop:
     k_names = ["lifecycle(device.Peer keypairs/index table/handshake index after every event == Keypairs.Model.step)"]
     rule = ("scenarios on a real device (sim bind/tun, own reference peer) from one PRNG: handshakes completed as "
             "initiator and as responder, stale and repeated responses, data under previous/current/next/retired/"
-            "never-installed keys with fresh counters, FORGED transport messages (right index of the next/current/previous/"
+            "never-installed keys with fresh counters, both as data and as KEEPALIVES (zero-length transport messages; acceptance "
+            "read off rx_bytes, the slots off VerifPeer), FORGED transport messages (right index of the next/current/previous/"
             "retired key, fresh counter, corrupted tag / ciphertext / garbage / wrong key) and replayed ones, three scenarios "
             "in which REAL time (0.6 s, socket idle) carries a key from 179.5 s past 180 s before a message arrives, interface "
             "Down/Up (Peer.Stop+Start) at every slot configuration followed by probes under the keys just dropped, keepalive-only transmissions (SendKeepalive through the UAPI "
